@@ -2,7 +2,7 @@
 another; the templates keep the copies identical where the code is identical)."""
 from vf.extract import FnC, Sel, Mod, Clause
 
-PRELUDE_BLOCK = ['00_base.rs', '05_ranges.rs', '10_inout.rs', '20_cipher.rs', '40_stream.rs', '45_bytes.rs', '50_fmt_zeroize.rs']
+PRELUDE_BLOCK = ['00_base.rs', '05_ranges.rs', '10_inout.rs', '20_cipher.rs', '30_inoutbuf.rs', '40_stream.rs', '45_bytes.rs', '50_fmt_zeroize.rs']
 
 
 def xor_fn(props=('C02',), kani=('xor_helper',)):
